@@ -46,6 +46,8 @@ def run(ctx):
         res = tlc.run_tlc('NumTheory', cfg, workdir=wd, env={'TRACE_FILE': tf}, timeout=3000, cont=True)
         ctx.add_tlc(res, 'NumTheory')
         ctx.traces += len(evs)
+        if res.generated < len(evs):
+            raise tlc.TLCError(f'not all events were evaluated by TLC: {res.generated} < {len(evs)}')
         fns = {}
         for e in evs:
             ctx.case((e['fn'], e['x'], e['y'], e['n'], e['N'], e['D']))
